@@ -355,6 +355,41 @@ func (e *Eng) evalCallInner(st *State, call *ast.CallExpr) []*Val {
 	for k, v := range env {
 		oldEnv[k] = v
 	}
+	// higher-order callees: `runs f with ...` - inline the function literal passed for parameter f
+	for _, rc := range con.Runs {
+		for i := 0; i < sig.Params().Len() && i < len(call.Args); i++ {
+			if sig.Params().At(i).Name() != rc.Param {
+				continue
+			}
+			var lit *ast.FuncLit
+			if fl, ok := ast.Unparen(call.Args[i]).(*ast.FuncLit); ok {
+				lit = fl
+			} else if args[i] != nil && args[i].Lit != nil {
+				lit = args[i].Lit
+			}
+			if lit == nil {
+				e.gap("runs %s: argument is not a function literal, its effects are havocked", rc.Param)
+				e.havocHeap(st)
+				continue
+			}
+			saved := map[types.Object]*Val{}
+			for _, g := range rc.Ghosts {
+				if obj, ok := e.ghosts[g.Name]; ok {
+					saved[obj] = st.vars[obj]
+					st.vars[obj] = e.evalSpec(st, g.Expr, e.specEnvFromState(st), e.oldEnv)
+				}
+			}
+			out, _ := e.execClosure(st.clone(), lit, nil)
+			if out == nil {
+				st.dead = true
+				return results
+			}
+			*st = *out
+			for obj, v := range saved {
+				st.vars[obj] = v
+			}
+		}
+	}
 	preState := st
 	if !con.Pure {
 		preState = st.clone()
